@@ -4,6 +4,7 @@ accepted, listed in the evidence) or a rule id registered by a property module.
 """
 _REG = {}
 _CACHE = {}
+_ACTIVE = set()
 
 
 def register(lemma_id, fn):
@@ -21,10 +22,19 @@ def status(prog, lemma_id):
     if fn is None:
         res = "paper"
     else:
+        if key in _ACTIVE:
+            raise RuntimeError("cyclic lemma dependency through %s" % lemma_id)
+        _ACTIVE.add(key)
         try:
             res = "ok" if fn(prog) else "failed"
+        except RuntimeError as e:
+            if "cyclic lemma" in str(e):
+                raise
+            res = "failed"
         except Exception:
             res = "failed"
+        finally:
+            _ACTIVE.discard(key)
     _CACHE[key] = res
     return res
 
